@@ -187,7 +187,7 @@ func C05(tier string) {
 	}
 	var mu sync.Mutex
 	comparisons, nonEmpty := 0, 0
-	core.Parallel(len(progs), 6, func(pi int) {
+	core.Parallel(len(progs), 4, func(pi int) {
 		p := progs[pi]
 		work := filepath.Join(run.Scratch, "work-"+p.Name)
 		_ = os.MkdirAll(work, 0o755)
@@ -210,24 +210,39 @@ func C05(tier string) {
 		for _, v := range variants {
 			write(v.Name, v.Set)
 		}
-		jf := filepath.Join(work, "job.json")
-		core.WriteJSON(jf, job)
-		cr := SpawnWorker("taint", jf, 0)
-		if cr.Status != "ok" {
-			data, _ := os.ReadFile(cr.LogFile)
-			if cr.Status == "panic" {
-				run.Violation("analyzer-panic:"+p.Name, "analysis crashed under an option variant: "+tailStr(string(data), 3000), map[string]string{"log.txt": tailStr(string(data), 20000)})
-			} else {
-				run.Inconclusive(p.Name + ": worker " + cr.Status + " " + tailStr(string(data), 200))
+		// one supervised child per variant: an analyzer state can take gigabytes on programs that import much of the
+		// standard library, and states of successive runs in one process are not always released in time
+		res := TaintJobResult{Results: map[string][]ana.TaintResult{}}
+		failed := false
+		for ri, rs := range job.Runs {
+			one := &TaintJob{Dir: job.Dir, Runs: []TaintRunSpec{rs}, Out: filepath.Join(work, fmt.Sprintf("out-%d.json", ri))}
+			jf := filepath.Join(work, fmt.Sprintf("job-%d.json", ri))
+			core.WriteJSON(jf, one)
+			cr := SpawnWorker("taint", jf, 0)
+			if cr.Status != "ok" {
+				data, _ := os.ReadFile(cr.LogFile)
+				if cr.Status == "panic" {
+					run.Violation("analyzer-panic:"+p.Name+":"+rs.Name, "analysis crashed under option variant "+rs.Name+": "+tailStr(string(data), 3000), map[string]string{"log.txt": tailStr(string(data), 20000)})
+				} else {
+					run.Inconclusive(p.Name + "/" + rs.Name + ": worker " + cr.Status + " " + tailStr(string(data), 200))
+				}
+				failed = true
+				break
 			}
-			return
+			var r1 TaintJobResult
+			if err := core.ReadJSON(one.Out, &r1); err != nil || r1.Err != "" {
+				if strings.HasPrefix(p.Name, "repo-") && strings.Contains(r1.Err, "load:") {
+					return // not loadable as a plain package directory: skipped
+				}
+				run.Inconclusive(fmt.Sprintf("%s/%s: %v %s", p.Name, rs.Name, err, r1.Err))
+				failed = true
+				break
+			}
+			for k, v := range r1.Results {
+				res.Results[k] = v
+			}
 		}
-		var res TaintJobResult
-		if err := core.ReadJSON(job.Out, &res); err != nil || res.Err != "" {
-			if strings.HasPrefix(p.Name, "repo-") && strings.Contains(res.Err, "load:") {
-				return // not loadable as a plain package directory: skipped
-			}
-			run.Inconclusive(fmt.Sprintf("%s: %v %s", p.Name, err, res.Err))
+		if failed {
 			return
 		}
 		base := flowSet(res.Results["base"][0])
